@@ -37,6 +37,11 @@ CASES_Q = [
     ('quso', 'QUSO', [('b', 'c'), ('a', 'b'), ('a',)], 1, 'T1', 'up', 1, None),
     ('qubo', 'QUBOMatrix', [(1, 2), (0, 1), (2,)], 1, 'T0', 'down', 1, None),
     ('quso', 'QUSO', [('a',), ('b',)], 1, 'T1', None, 1, None),                             # purely linear
+    ('quso', 'QUSO', [(1, 2), (2, 3), (3,)], 1, 'T0', 'mixed', 1, None),                    # 1-based integer labels on a labelled type
+    ('quso', 'dict', [(2, 0), (0, 1), (2,)], 1, 'T0', 'up', 1, None),                       # labels 0..N-1 first seen in a different order
+    ('puso', 'PUSO', [(2, 1, 3), (1,)], 1, 'T0', 'down', 1, None),
+    ('qubo', 'QUBO', [(1, 2), (2,)], 1, 'T0', 'mixed', 1, None),
+    ('pubo', 'dict', [(3, 1, 2), (3,)], 1, 'T0', 'up', 1, None),
     ('qubo', 'QUBO', [('a',), ('b', 'c')], 1, 'T0', 'down', 1, None),
     ('puso', 'PUSOMatrix', [(0, 1, 2), (1,), ()], 1, 'T0', 'mixed', 1, None),
     ('puso', 'PUSO', [('a', 'b', 'c'), ('a', 'd')], 1, 'Thalf', None, 1, None),
